@@ -379,7 +379,7 @@ func explore(p *propCfg, worker, dir string, seed uint64, nW int, budgetMs int, 
 						// a worker killed by an unrecovered panic of a task is a property
 						// violation candidate (C19: "does not terminate the process"); it is
 						// confirmed by replaying the case it was executing in a fresh process
-						if cb, e2 := os.ReadFile(crashFile); e2 == nil && strings.Contains(buf.String(), "panic:") {
+						if cb, e2 := os.ReadFile(crashFile); e2 == nil && looksLikeCrash(buf.String()) {
 							var c caseDoc
 							if json.Unmarshal(cb, &c) == nil {
 								c["violation"] = map[string]any{"class": "process_killed", "site": "goz.(*Limiter).Go", "detail": "worker process terminated by a panic while executing this case: " + firstPanicLine(buf.String())}
@@ -418,9 +418,13 @@ func explore(p *propCfg, worker, dir string, seed uint64, nW int, budgetMs int, 
 	return outs, nil
 }
 
+func looksLikeCrash(s string) bool {
+	return strings.Contains(s, "panic:") || strings.Contains(s, "fatal error:") || strings.Contains(s, "panic while printing")
+}
+
 func firstPanicLine(s string) string {
 	for _, l := range strings.Split(s, "\n") {
-		if strings.HasPrefix(l, "panic:") {
+		if strings.HasPrefix(l, "panic:") || strings.HasPrefix(l, "fatal error:") || strings.Contains(l, "panic while printing") {
 			return l
 		}
 	}
@@ -463,7 +467,7 @@ func replayOnce(worker, dir string, c caseDoc, strict bool, tag string) (caseDoc
 	select {
 	case err := <-done:
 		if err != nil {
-			if curEngine == "B" && strings.Contains(buf.String(), "panic:") {
+			if curEngine == "B" && looksLikeCrash(buf.String()) {
 				d := clone(c)
 				v := &violation{Class: "process_killed", Site: "goz.(*Limiter).Go", Detail: "worker process terminated by a panic while executing this case: " + firstPanicLine(buf.String())}
 				d["violation"] = map[string]any{"class": v.Class, "site": v.Site, "detail": v.Detail}
